@@ -47,7 +47,7 @@ class Session:
         self.tick()
         self.sends += 1
         f = self.fault
-        if f and f["at"] == "send" and f["n"] == self.sends:
+        if f and (f.get("at") == "send" and f["n"] == self.sends or f.get("at") == "op" and f["n"] == self.sends + self.recvs):
             self.fault_fired = True
             self.ev({"k": "fault", "at": "send", "kind": f["kind"], "n": self.sends})
             if f["kind"] == "eof":
@@ -70,7 +70,7 @@ class Session:
         self.tick()
         self.recvs += 1
         f = self.fault
-        if f and f["at"] == "recv" and f["n"] == self.recvs:
+        if f and (f.get("at") == "recv" and f["n"] == self.recvs or f.get("at") == "op" and f["n"] == self.sends + self.recvs):
             self.fault_fired = True
             self.ev({"k": "fault", "at": "recv", "kind": f["kind"], "n": self.recvs})
             self.lose_pending()
